@@ -3,6 +3,7 @@
    the theorems about them are in Context.v (bytes), Focus.v (pointer trees) and NotifyInside.v. *)
 From SF Require Import Base.Prelude Gen.Generated Unsized.Types Unsized.Parse Unsized.Machine Unsized.Ops.
 From SF Require Import Unsized.Proofs.EncodeParse Unsized.Proofs.Mem Unsized.Proofs.Notify Unsized.Proofs.Flat Unsized.Proofs.Layout Unsized.Proofs.Table.
+From SF Require Import Unsized.Proofs.EnumFacts.
 
 Arguments Z.add : simpl never.
 Arguments Z.sub : simpl never.
@@ -11,10 +12,10 @@ Arguments Z.of_nat : simpl never.
 Arguments Z.pow : simpl never.
 Arguments Z.modulo : simpl never.
 
-Inductive step := SF (i : nat) | SE (i : nat).
+Inductive step := SF (i : nat) | SE (i : nat) | SV.   (* struct field / element of a list of unsized elements / the live variant's payload *)
 
 (* the machine's path: an element step goes through the recorded inner pointer *)
-Definition mstep_of (s : step) : pos := match s with SF i => PF i | SE _ => PI end.
+Definition mstep_of (s : step) : pos := match s with SF i => PF i | SE _ => PI | SV => PV end.
 Definition mpath (pi : list step) : list pos := map mstep_of pi.
 
 Fixpoint resolve (t : ty) (v : val) (pi : list step) {struct pi} : option (ty * val) :=
@@ -34,6 +35,15 @@ Fixpoint resolve (t : ty) (v : val) (pi : list step) {struct pi} : option (ty * 
       | TUList it _, VUList items =>
           match nth_error items i with
           | Some kv => resolve it (snd kv) r
+          | None => None
+          end
+      | _, _ => None
+      end
+  | SV :: r =>
+      match t, v with
+      | TEnum _ vs, VEnum d p =>
+          match find_variant d vs with
+          | Some vt => resolve vt p r
           | None => None
           end
       | _, _ => None
@@ -58,6 +68,15 @@ Fixpoint plug (t : ty) (v : val) (pi : list step) (x : val) {struct pi} : val :=
       | TUList it _, VUList items =>
           match nth_error items i with
           | Some kv => VUList (set_nth i (fst kv, plug it (snd kv) r x) items)
+          | None => v
+          end
+      | _, _ => v
+      end
+  | SV :: r =>
+      match t, v with
+      | TEnum _ vs, VEnum d p =>
+          match find_variant d vs with
+          | Some vt => VEnum d (plug vt p r x)
           | None => v
           end
       | _, _ => v
@@ -94,6 +113,15 @@ Fixpoint hctx (t : ty) (v : val) (pi : list step) (d : Z) {struct pi} : list Z *
               let '(P, Q) := hctx it (snd kv) r d in
               (uhdr (bump i d (usizes it items)) (map fst items) ++ concat (firstn i (uenc it items)) ++ P,
                Q ++ concat (skipn (S i) (uenc it items)))
+          | None => ([], [])
+          end
+      | _, _ => ([], [])
+      end
+  | SV :: r =>
+      match t, v with
+      | TEnum rw vs, VEnum dd p =>
+          match find_variant dd vs with
+          | Some vt => let '(P, Q) := hctx vt p r d in (le_bytes rw dd ++ P, Q)
           | None => ([], [])
           end
       | _, _ => ([], [])
@@ -137,6 +165,12 @@ Fixpoint LayP (E : ty -> val -> Z -> ptr -> Prop) (pi : list step) (t : ty) (v :
           a = b /\ n = zlen items /\ rs = b /\ re = b + zlen (encode (TUList it k) (VUList items)) /\
           exists kv q, nth_error items i = Some kv /\ inner = Some q /\
                        LayP E r it (snd kv) (elem_addr it k items b i) q
+      | _, _, _ => False
+      end
+  | SV :: r =>
+      match t, v, p with
+      | TEnum rw vs, VEnum d pv, PEnum st d' q =>
+          st = b /\ d' = d /\ exists vt, find_variant d vs = Some vt /\ LayP E r vt pv (b + Z.of_nat rw) q
       | _, _, _ => False
       end
   end.
